@@ -280,18 +280,47 @@ type typeInvClause struct {
 // collectLoops returns, in source order (pre-order), a position inside each loop body
 func collectLoops(body *ast.BlockStmt) []token.Pos {
 	var out []token.Pos
-	ast.Inspect(body, func(n ast.Node) bool {
+	for _, n := range loopNodes(body) {
 		switch l := n.(type) {
 		case *ast.ForStmt:
 			out = append(out, l.Body.Lbrace+1)
 		case *ast.RangeStmt:
 			out = append(out, l.Body.Lbrace+1)
+		}
+	}
+	return out
+}
+
+// loopNodes: the loops of a function body in the order of their contract ordinals (1-based): first the loops outside
+// function literals in source order, then the loops inside function literals (closures defined in the function, which
+// are executed inlined at their call sites) in source order. Appending the closure loops keeps older ordinals stable.
+func loopNodes(body *ast.BlockStmt) []ast.Node {
+	var outer, inner []ast.Node
+	depth := 0
+	var stack []ast.Node
+	ast.Inspect(body, func(n ast.Node) bool {
+		if n == nil {
+			top := stack[len(stack)-1]
+			stack = stack[:len(stack)-1]
+			if _, ok := top.(*ast.FuncLit); ok {
+				depth--
+			}
+			return true
+		}
+		stack = append(stack, n)
+		switch n.(type) {
 		case *ast.FuncLit:
-			return false
+			depth++
+		case *ast.ForStmt, *ast.RangeStmt:
+			if depth == 0 {
+				outer = append(outer, n)
+			} else {
+				inner = append(inner, n)
+			}
 		}
 		return true
 	})
-	return out
+	return append(outer, inner...)
 }
 
 // computePurity: a function is pure if its body contains no heap stores, appends, allocations escaping... conservative:
